@@ -167,11 +167,6 @@ def check_maxseqs(case, rec):
                 cands.append(O.hist([O.lev(x, y) for x in s1 for y in s2], edges))
     if got not in cands:
         raise Violation("maxseqs-not-a-subsample", f"maxseqs={m} on {seqs} / {seqs2}: histogram {got} is not the histogram of any size-{m1} sub-sample ({len(cands)} candidates)")
-    # same seed, same answer
-    np.random.seed(seed)
-    again = [int(x) for x in np.asarray(call("pcDelta-maxseqs", pyrepseq.pcDelta, a, b, bins=list(edges), normalize=False, maxseqs=m))]
-    if again != got:
-        raise Violation("maxseqs-seed", "same NumPy seed gave a different sub-sample result")
     # total number of pairs with wide bins
     np.random.seed(seed)
     tot = int(np.sum(call("pcDelta-maxseqs", pyrepseq.pcDelta, a, b, bins=[0, 10 ** 6], normalize=False, maxseqs=m)))
@@ -312,9 +307,6 @@ def check_background(case, rec):
         raise Violation("background-bins", f"bins {list(bins)[:5]}.. are not arange({len(back)}+1)")
     if list(back.index) != list(range(len(back))):
         raise Violation("background-index", "background index is not 0..rows-1")
-    only = call("background", pyrepseq.load_pcDelta_background, return_bins=False)
-    if not only.equals(back):
-        raise Violation("background-return_bins", "return_bins=False gives a different table")
     seqs = case["seqs"]
     out = call("pcDelta", pyrepseq.pcDelta, list(seqs), bins=bins)
     if len(out) != len(back):
